@@ -1,4 +1,5 @@
 import KaVerif.Gen.Bodies
+import KaVerif.Model.EvalG
 import KaVerif.Lemmas.EvalLemmas
 /-
   Lemmas for Props/Bodies.lean: the function bodies TRANSLATED from the Python source (`Gen/Bodies.lean`,
@@ -830,5 +831,92 @@ theorem numDisp_dispatchV (n : Nat) : NumDisp (fun nm as => dispatchV n nm as []
             obtain ⟨m, rfl⟩ := numCode_run code ht _ _ r hr
             simp only [hca, hr, bind, Except.bind] at hv
             exact simplifyVal_num m v hv
+
+section EvalGInstance
+open Parser EvalG
+
+/-! ### `Model/EvalG.lean`'s parameterised evaluator at the hand-written dispatcher IS `Model/Eval.lean`'s -/
+
+/-- unfold both definitions, rewrite the sub-terms by the induction hypotheses; what remains differs only in the names of the
+    auxiliary `match` functions the two definitions were compiled to (closed by `rfl`) -/
+syntax "inst_tac" "[" Lean.Parser.Tactic.simpLemma,* "]" : tactic
+macro_rules
+  | `(tactic| inst_tac [$ls,*]) => `(tactic| ((try simp only [$ls,*]); (try rfl)))
+
+mutual
+theorem evalEW_top : (t : Ast) → ∀ env : Env, evalEW dispatchTop env t = evalE env t
+  | .num _ => fun _ => by inst_tac [evalEW, evalE]
+  | .str _ => fun _ => by inst_tac [evalEW, evalE]
+  | .inst _ => fun _ => by inst_tac [evalEW, evalE]
+  | .var _ => fun _ => by inst_tac [evalEW, evalE]
+  | .bin o l r => fun env => by inst_tac [evalEW, evalE, evalEW_top l, evalEW_top r]
+  | .sign neg x => fun env => by inst_tac [evalEW, evalE, evalEW_top x]
+  | .fact x => fun env => by inst_tac [evalEW, evalE, evalEW_top x]
+  | .range lo hi => fun env => by inst_tac [evalEW, evalE, evalEW_top lo, evalEW_top hi]
+  | .interval lo hi => fun env => by inst_tac [evalEW, evalE, evalEW_top lo, evalEW_top hi]
+  | .cmp1 o x y => fun env => by inst_tac [evalEW, evalE, evalEW_top x, evalEW_top y]
+  | .cmp2 o1 o2 x y z => fun env => by inst_tac [evalEW, evalE, evalEW_top x, evalEW_top y, evalEW_top z]
+  | .call name args kws => fun env => by inst_tac [evalEW, evalE, evalEsW_top args, evalKsW_top kws]
+  | .quantity t sig => fun env => by inst_tac [evalEW, evalE, evalEW_top t]
+  | .convert t sig => fun env => by inst_tac [evalEW, evalE, evalEW_top t]
+  | .array xs => fun env => by inst_tac [evalEW, evalE, evalEsW_top xs]
+  | .compr body gens conds => fun env => by
+    have hb : (fun env' => evalEW dispatchTop env' body) = (fun env' => evalE env' body) := funext (evalEW_top body)
+    inst_tac [evalEW, evalE, evalKsW_top gens, evalCondsW_top conds, hb]
+  | .assign _ _ => fun _ => by inst_tac [evalEW, evalE]
+  | .stmts _ => fun _ => by inst_tac [evalEW, evalE]
+theorem evalEsW_top : (ts : List Ast) → ∀ env : Env, evalEsW dispatchTop env ts = evalEs env ts
+  | [] => fun _ => by inst_tac [evalEsW, evalEs]
+  | t :: ts => fun env => by inst_tac [evalEsW, evalEs, evalEW_top t, evalEsW_top ts]
+theorem evalKsW_top : (ts : List (String × Ast)) → ∀ env : Env, evalKsW dispatchTop env ts = evalKs env ts
+  | [] => fun _ => by inst_tac [evalKsW, evalKs]
+  | (k, t) :: ts => fun env => by inst_tac [evalKsW, evalKs, evalEW_top t, evalKsW_top ts]
+theorem evalCondsW_top : (cs : List Ast) → evalCondsW dispatchTop cs = evalConds cs
+  | [] => by inst_tac [evalCondsW, evalConds]
+  | c :: cs => by
+    have hc : (fun env' => evalEW dispatchTop env' c) = (fun env' => evalE env' c) := funext (evalEW_top c)
+    inst_tac [evalCondsW, evalConds, hc, evalCondsW_top cs]
+end
+
+theorem evalStmtW_top (env : Env) (t : Ast) : evalStmtW dispatchTop env t = evalStmt env t := by
+  cases t <;> inst_tac [evalStmtW, evalStmt, evalEW_top]
+
+theorem runStmtsW_top (env : Env) (last : Val) (ss : List Ast) : runStmtsW dispatchTop env last ss = runStmts env last ss := by
+  induction ss generalizing env last with
+  | nil => rfl
+  | cons s rest ih =>
+    simp only [runStmtsW, runStmts, evalStmtW_top]
+    cases h : evalStmt env s with
+    | mk env' r =>
+      cases r with
+      | ok v => exact ih env' v
+      | error e => rfl
+
+theorem runProgramW_top (env : Env) (t : Ast) : runProgramW dispatchTop env t = runProgram env t := by
+  cases t <;> inst_tac [runProgramW, runProgram, runStmtsW_top, evalStmtW_top]
+
+theorem evalAstW_top (env : Env) (t : Ast) : evalAstW dispatchTop env t = evalAst env t := by
+  inst_tac [evalAstW, evalAst, runProgramW_top]
+
+theorem runTreeW_top (env : Env) (t : Ast) : runTreeW dispatchTop env t = runTree env t := by
+  inst_tac [runTreeW, runTree, runProgramW_top]
+
+theorem runTokensW_top (env : Env) (toks : List Token) : runTokensW dispatchTop env toks = runTokens env toks := by
+  inst_tac [runTokensW, runTokens, runTreeW_top]
+
+theorem runInW_top (env : Env) (s : List Char) : runInW dispatchTop env s = runIn env s := by
+  inst_tac [runInW, runIn, runTokensW_top]
+
+theorem runTextW_top (s : String) : runTextW dispatchTop s = runText s := by
+  inst_tac [runTextW, runText, runInW_top]
+
+theorem runSessionW_top (env : Env) (lost : Bool) (ss : List String) :
+    runSessionW dispatchTop env lost ss = runSession env lost ss := by
+  induction ss generalizing env lost with
+  | nil => inst_tac [runSessionW, runSession]
+  | cons s rest ih =>
+    inst_tac [runSessionW, runSession, runInW_top, ih]
+
+end EvalGInstance
 
 end KaVerif.Bodies
